@@ -69,7 +69,8 @@ package proxy
 //@   props C43
 //@   at-call Close as cl: assert arg0 == h.conn
 //@   at-store receivedRequest: assert value && !called(np) && !called(wr)
-//@   at-call newInitialPing as np: assert arg0 == h.proxy && arg1 == pc.Protocol && !old(h.receivedRequest)
+//@   at-call Protocol as cp: assert arg0 == h.conn
+//@   at-call newInitialPing as np: assert [the-protocol-the-client-announced-not-the-registry-fallback] arg0 == h.proxy && called(cp) && arg1 == res(cp) && !old(h.receivedRequest)
 //@   at-call Active as act
 //@   at-call json.Marshal as js
 //@   at-call writeStatusResponse as wr: assert arg0 == h && !old(h.receivedRequest) && !called(cl)
@@ -87,9 +88,9 @@ package proxy
 // The advertised protocol is the client's when supported, else the newest; the player count is the registry's.
 //@ func newInitialPing
 //@   props C43
-//@   at-call Supported as sup: assert arg0 == protocol
+//@   at-call Version as ver: assert [looked-up-in-the-table-of-known-versions] arg0 == protocol
 //@   at-call PlayerCount as cnt: assert arg0 == p
-//@   ensures [protocol] called(sup) && result.Version.Protocol == ite(res(sup), protocol, version.MaximumVersion.Protocol)
+//@   ensures [protocol] called(ver) && result.Version.Protocol == ite(res(ver) == version.Unknown || res(ver) == version.Legacy, version.MaximumVersion.Protocol, protocol)
 //@   ensures [online-count] called(cnt) && result.Players != nil && result.Players.Online == res(cnt)
 
 // The ping is answered with the very bytes received and the connection is closed on every path.
